@@ -122,11 +122,12 @@ var wC20 = weights{"tip": 6, "past": 6, "update": 3, "resubmit": 4, "conflict": 
 
 func TestC20(t *testing.T) {
 	vx.Check(t, vx.Prop[Case]{
-		ID:        "C20",
-		Rule:      "histories (<=30 ops) of header updates at arbitrary heights (tip, gap-filling, duplicates, conflicting headers for stored heights), misbehaviour, recovery, time advances (pruning) against one 07-tendermint client of a harness-signed virtual chain; non-trivial = >=1 accepted resubmission/conflict on a stored height and >=1 accepted past-height update; distinct by full history",
-		MinNTFrac: 0.25,
-		Gen:       func(t *rapid.T) Case { return genCase(t, wC20, 30, func(i, n int) int { return 5 }) },
-		Run:       runC20(t),
+		ID:          "C20",
+		Rule:        "histories (<=30 ops) of header updates at arbitrary heights (tip, gap-filling, duplicates, conflicting headers for stored heights), misbehaviour, recovery, time advances (pruning) against one 07-tendermint client of a harness-signed virtual chain; non-trivial = >=1 accepted resubmission/conflict on a stored height and >=1 accepted past-height update; distinct by full history",
+		MinNTFrac:   0.25,
+		Assumptions: []string{"counterparty chain V is virtual: the harness owns its validator keys (ed25519 from secret val-<i>) and signs headers itself", "recovery = ClientKeeper.RecoverClient (MsgRecoverClient after its authority check); upgrades and client genesis import are not exercised", "raw client store parsed by its documented key layout; stored protobuf values decoded with the app codec"},
+		Gen:         func(t *rapid.T) Case { return genCase(t, wC20, 30, func(i, n int) int { return 5 }) },
+		Run:         runC20(t),
 	})
 }
 
